@@ -824,6 +824,35 @@ theorem where_counterexample :
     i.γ [1, 1] ∧ k.γ [2, 3] ∧ refBroadcast3 [1, 1] [1, 1] [2, 3] = some [2, 3] ∧ whereTripled i i k = true ∧
     transferWhere i i k = some ⟨.fixedDim 2, .known 18⟩ ∧ ¬ (⟨.fixedDim 2, .known 18⟩ : SInfo).γ [2, 3] := by decide
 
+/-- the same defect in the everyday form `where(cond, 1, 0)`: a fixed-size condition with a run-time shape and two number
+    literals (size type ct<1>): fixed_size 18 for a view of 6 elements -/
+theorem where_scalar_counterexample :
+    let i : SInfo := ⟨.fixedDim 2, .known 6⟩
+    i.γ [2, 3] ∧ scalarInfo.γ [] ∧ refBroadcast3 [2, 3] [] [] = some [2, 3] ∧ whereTripled i scalarInfo scalarInfo = true ∧
+    transferWhere i scalarInfo scalarInfo = some ⟨.fixedDim 2, .known 18⟩ ∧ ¬ (⟨.fixedDim 2, .known 18⟩ : SInfo).γ [2, 3] := by decide
+
+/-- one view of `view::broadcast_arrays(p, q, r)` (number literals are operands with `scalarInfo` and shape `[]`):
+    the size type `index::broadcast_size` derives from the operand sizes is sound for every operand order -/
+theorem broadcast3_static_sound {i j k o : SInfo} {a b c t : Shape} (hi : i.γ a) (hj : j.γ b) (hk : k.γ c)
+    (hpa : Pos a) (hpb : Pos b) (hpc : Pos c) (href : refBroadcast3 a b c = some t)
+    (ho : transferBroadcast3 i j k = some o) : o.γ t := by
+  simp only [refBroadcast3, Option.bind_eq_some_iff] at href
+  obtain ⟨t1, hr1, hr2⟩ := href
+  simp only [transferBroadcast3, Option.map_eq_some_iff] at ho
+  obtain ⟨B, hB, rfl⟩ := ho
+  simp only [broadcastShapeK3, Option.bind_eq_some_iff] at hB
+  obtain ⟨K1, hK1, hK2⟩ := hB
+  have si := seen_sound hi; have sj := seen_sound hj; have sk := seen_sound hk
+  have hK1γ : K1.γ t1 := broadcastShapeK_sound si.1 sj.1 hpa hpb hr1 hK1
+  have hBγ : B.γ t := broadcastShapeK_sound hK1γ sk.1 (refBroadcast_pos hpa hpb hr1) hpc hr2 hK2
+  exact indexingInfo_sound hBγ (bsizeK_sound hBγ si.2 sj.2 sk.2 hr1 hr2)
+
+/-- a fixed-size first operand (2 elements), a number literal, a dynamic operand that stretches the result to (2,7):
+    the first operand's size type must NOT survive (it does when `other_is_all_none` is folded with `||`) -/
+example : transferBroadcast3 ⟨.fixedDim 2, .known 2⟩ scalarInfo ⟨.dyn, .any⟩ = some ⟨.dyn, .any⟩ ∧
+    refBroadcast3 [2, 1] [] [7] = some [2, 7] ∧
+    transferBroadcast3 ⟨.fixedDim 2, .known 6⟩ scalarInfo scalarInfo = some ⟨.fixedDim 2, .known 6⟩ := by decide
+
 /-! ### matmul (operands of rank >= 2) -/
 
 theorem matmulSize_sound {i j : SInfo} {a b t : Shape} (hi : i.γ a) (hj : j.γ b) (hprod : prod t ≤ prod a * prod b) :
